@@ -1,7 +1,7 @@
 (* Properties/C09.v — C09: rejected static rows are inert, and reported warnings describe the offending row.
    `rejected` causes are those of the property (required value missing; required number, time or date unparseable;
    required reference naming an id that does not exist), stated per file on the row view. *)
-From GV Require Import Base.Prelude Model.Realtime Model.Static Proofs.StaticProofs.
+From GV Require Import Base.Prelude Model.Realtime Model.Static Proofs.StaticProofs Proofs.InertProofs.
 
 (* the generic facts: a row the row function rejects contributes nothing, wherever it is inserted and however many there are *)
 Theorem C09_inert_filter : forall (A B : Type) (f : A -> option B) r1 bad r2, Forall (fun r => f r = None) bad ->
@@ -70,3 +70,43 @@ Theorem C09_warning_content : forall hdr n cells w, agency_row hdr n cells = inr
 Proof. intros hdr n cells w. unfold agency_row. destruct (required _ "agency_name") as [a m1]. destruct (required _ "agency_url") as [b m2].
   destruct (required _ "agency_timezone") as [c m3]. destruct m1, m2, m3; cbn; intros H; inversion H; subst; cbn; auto. Qed.
 Print Assumptions C09_warning_content.
+
+(* ---- whole files: rows rejected for one of the property's causes, inserted anywhere in the file in any number, leave what
+   the file contributes unchanged.  For stop_times.txt and frequencies.txt "names an unknown trip" is judged against the
+   trips as they are when the file is opened: the row loops rewrite trips in place but never change a trip's id. ---- *)
+Theorem C09_routes_file : forall (pf : string -> option Z) (di : string -> string -> option Z) ags hdr r1 bad r2, Forall (fun cells => route_bad ags (view hdr cells)) bad ->
+  parse_routes ags hdr (r1 ++ bad ++ r2) = parse_routes ags hdr (r1 ++ r2).
+Proof. intros. eapply routes_file_inert; eassumption. Qed.
+Print Assumptions C09_routes_file.
+Theorem C09_stops_file : forall (pf : string -> option Z) (di : string -> string -> option Z) inherit hdr r1 bad r2, Forall (fun cells => stop_bad (view hdr cells)) bad ->
+  parse_stops pf inherit hdr (r1 ++ bad ++ r2) = parse_stops pf inherit hdr (r1 ++ r2).
+Proof. intros. eapply stops_file_inert; eassumption. Qed.
+Print Assumptions C09_stops_file.
+Theorem C09_transfers_file : forall (pf : string -> option Z) (di : string -> string -> option Z) stops hdr r1 bad r2, Forall (fun cells => transfer_bad stops (view hdr cells)) bad ->
+  parse_transfers stops hdr (r1 ++ bad ++ r2) = parse_transfers stops hdr (r1 ++ r2).
+Proof. intros. eapply transfers_file_inert; eassumption. Qed.
+Print Assumptions C09_transfers_file.
+Theorem C09_trips_file : forall (pf : string -> option Z) (di : string -> string -> option Z) routes services shapes hdr r1 bad r2, Forall (fun cells => trip_bad routes services (view hdr cells)) bad ->
+  parse_trips routes services shapes hdr (r1 ++ bad ++ r2) = parse_trips routes services shapes hdr (r1 ++ r2).
+Proof. intros. eapply trips_file_inert; eassumption. Qed.
+Print Assumptions C09_trips_file.
+Theorem C09_stop_times_file : forall (pf : string -> option Z) (di : string -> string -> option Z) stops trips hdr r1 bad r2, Forall (fun cells => stop_time_bad stops trips (view hdr cells)) bad ->
+  parse_stop_times pf stops trips hdr (r1 ++ bad ++ r2) = parse_stop_times pf stops trips hdr (r1 ++ r2).
+Proof. intros. eapply stop_times_file_inert; eassumption. Qed.
+Print Assumptions C09_stop_times_file.
+Theorem C09_frequencies_file : forall (pf : string -> option Z) (di : string -> string -> option Z) trips hdr r1 bad r2, Forall (fun cells => frequency_bad trips (view hdr cells)) bad ->
+  parse_frequencies trips hdr (r1 ++ bad ++ r2) = parse_frequencies trips hdr (r1 ++ r2).
+Proof. intros. eapply frequencies_file_inert; eassumption. Qed.
+Print Assumptions C09_frequencies_file.
+Theorem C09_shapes_file : forall (pf : string -> option Z) (di : string -> string -> option Z) hdr r1 bad r2, Forall (fun cells => shape_bad pf (view hdr cells)) bad ->
+  parse_shapes pf hdr (r1 ++ bad ++ r2) = parse_shapes pf hdr (r1 ++ r2).
+Proof. intros. eapply shapes_file_inert; eassumption. Qed.
+Print Assumptions C09_shapes_file.
+Theorem C09_calendar_file : forall (pf : string -> option Z) (di : string -> string -> option Z) zone m hdr r1 bad r2, Forall (fun cells => calendar_bad di zone (view hdr cells)) bad ->
+  parse_calendar di zone m hdr (r1 ++ bad ++ r2) = parse_calendar di zone m hdr (r1 ++ r2).
+Proof. intros. eapply calendar_file_inert; eassumption. Qed.
+Print Assumptions C09_calendar_file.
+Theorem C09_calendar_dates_file : forall (pf : string -> option Z) (di : string -> string -> option Z) zone m hdr r1 bad r2, Forall (fun cells => calendar_date_bad di zone (view hdr cells)) bad ->
+  parse_calendar_dates di zone m hdr (r1 ++ bad ++ r2) = parse_calendar_dates di zone m hdr (r1 ++ r2).
+Proof. intros. eapply calendar_dates_file_inert; eassumption. Qed.
+Print Assumptions C09_calendar_dates_file.
